@@ -125,6 +125,10 @@ def kitty_random_case(rng):
     if rng.random() < 0.08:
         c["size"] = rng.choice(["FIT", "ORIGINAL", "AUTO", "FIT_TO_WIDTH"])
         c["cell"] = [rng.randint(4, 12), rng.randint(8, 24)]
+        if src.get("kind") == "new" and (src["h"] > 4 * src["w"] or src["w"] > 400 or src["h"] > 400):
+            # an automatic size keeps the aspect ratio: a 1 x 2221 source fitted to the terminal's
+            # width is tens of thousands of lines (a 50 MB case term) — keep the source moderate
+            src["w"], src["h"] = rng.randint(4, 48), rng.randint(4, 48)
     return c
 
 
@@ -317,6 +321,9 @@ def iterm2_term(c, r):
 # ------------------------------------------------------------------ evaluate
 
 
+OVERSIZE = []
+
+
 def evaluate(cases, tag="c03"):
     """-> (codes per case (int), errors, impl results).  A case the library refused to
     render (exception) or the driver could not handle gets code 2 / an error."""
@@ -341,6 +348,12 @@ def evaluate(cases, tag="c03"):
             groups["icase"][0].append(iterm2_term(c, r))
             groups["icase"][1].append(i)
     for typ, (terms, owner, expr) in groups.items():
+        # resource guard: a case whose term exceeds 3 MB (a render of thousands of lines) is not
+        # judged (reported in the evidence as skipped, never as an error or a failure)
+        keep = [k for k, t in enumerate(terms) if len(t) <= 3_000_000]
+        if len(keep) != len(terms):
+            OVERSIZE.extend(owner[k] for k in range(len(terms)) if k not in set(keep))
+            terms, owner = [terms[k] for k in keep], [owner[k] for k in keep]
         if not terms:
             continue
         bad, errs = core.coq_shards(f"{tag}{typ[0]}", HEADER, terms, typ, expr, shard=60)
@@ -460,7 +473,7 @@ def run(ctx):
                           "mix": False, "compress": 4, "jq": None, "rff": None, "term": "iterm2", "via": "format",
                           "z": 0, "blend": True})
     codes, errors, impl = evaluate(cases)
-    hist = {"kind": {}, "method": {}, "source": {}, "alpha": {}, "compress": {}, "cell_height": {},
+    hist = {"oversize_cases_not_judged": len(OVERSIZE), "kind": {}, "method": {}, "source": {}, "alpha": {}, "compress": {}, "cell_height": {},
             "chunks_per_transmission": {}, "payload_b64_len_mod_4096": {"0": 0, "4": 0, "4092": 0, "other": 0},
             "src_mode": {}, "iterm2_untouched": 0, "iterm2_jpeg": 0, "raised": 0}
 
